@@ -8,10 +8,10 @@ for id in "${ids[@]}"; do
   d=seeded/$id; prop=${id%%-*}
   race=0; [ "$prop" = C03 ] && race=1
   t0=$(date +%s)
-  out=$(VERIF_BUILD_RACE=$race VERIF_MINIMISE_S=15 scripts/with_tree.sh -p $d/patch.diff -- ./check $prop quick 2>&1); rc=$?
+  out=$(VERIF_BUILD_RACE=$race VERIF_MINIMISE_S=15 scripts/with_tree.sh -p /verif/$d/patch.diff -- ./check $prop quick 2>&1); rc=$?
   tier=quick
   if [ $rc -eq 0 ]; then
-    out=$(VERIF_BUILD_RACE=$race VERIF_MINIMISE_S=15 VERIF_BUDGET_S=900 scripts/with_tree.sh -p $d/patch.diff -- ./check $prop thorough 2>&1); rc=$?; tier=thorough
+    out=$(VERIF_BUILD_RACE=$race VERIF_MINIMISE_S=15 VERIF_BUDGET_S=900 scripts/with_tree.sh -p /verif/$d/patch.diff -- ./check $prop thorough 2>&1); rc=$?; tier=thorough
   fi
   t1=$(date +%s)
   classes=$(echo "$out" | grep -o 'class=[^ ]*' | sed 's/class=//' | sort -u | tr '\n' ' ')
